@@ -229,6 +229,63 @@ def run_sync_schedule(cfg, strays, reply_at, op="get"):
     return out, el
 
 
+def run_sync_sequence(cfg, calls, op="get"):
+    """Several calls on ONE sync session; calls = [(strays, reply_at), ...]. Returns [(outcome, elapsed)]."""
+    drivers.subject()
+    from gufo.snmp.sync_client import SnmpSession
+
+    agent = drivers.new_agent_socket(blocking=True)
+    agent.settimeout(3.0)
+    port = agent.getsockname()[1]
+    done = threading.Event()
+
+    def serve():
+        for strays, reply_at in calls:
+            try:
+                data, addr = agent.recvfrom(65535)
+            except OSError:
+                return
+            t0 = time.monotonic()
+            try:
+                req = drivers.open_request(cfg, data, strict=False, check_mac=False)
+            except Exception:  # noqa: BLE001
+                continue
+            if req.request_id is None:
+                continue
+            if op == "enter":
+                # session entry probes: a silent agent
+                continue
+            plan = [(t, stray_for(cfg, req, i)) for i, t in enumerate(strays)]
+            if reply_at is not None:
+                plan.append((reply_at, reply_for(cfg, req)))
+            for t, dg in sorted(plan, key=lambda x: x[0]):
+                delay = t0 + t - time.monotonic()
+                if delay > 0 and done.wait(delay):
+                    return
+                try:
+                    agent.sendto(dg, addr)
+                except OSError:
+                    return
+
+    th = threading.Thread(target=serve, daemon=True)
+    th.start()
+    kw = drivers.session_kwargs(cfg, port, T_SYNC)
+    s = SnmpSession(**kw)
+    out = []
+    for _ in calls:
+        t0 = time.monotonic()
+        if op == "enter":
+            o = drivers.call(s.__enter__)
+        else:
+            o = drivers.call(s.get, rb.oid_str(SYS))
+        out.append((o, time.monotonic() - t0))
+        time.sleep(0.02)
+    done.set()
+    th.join(1.0)
+    agent.close()
+    return out
+
+
 def judge_sync(strays, reply_at, out, el):
     bound = T_SYNC * (1 + SLACK)
     if el > bound:
@@ -297,9 +354,49 @@ def work_sync(chunk):
     return res
 
 
+def work_sync_seq(chunk):
+    res = common.Result()
+    for case in chunk:
+        cfg = Cfg.from_desc(case["cfg"])
+        calls = [(c[0], c[1]) for c in case["calls"]]
+        op = case.get("op", "get")
+
+        def problems():
+            outs = run_sync_sequence(cfg, calls, op)
+            ps = []
+            for i, ((strays, reply_at), (o, el)) in enumerate(zip(calls, outs)):
+                v = judge_sync(strays, reply_at, o, el)
+                if v:
+                    ps.append((i, v))
+            return ps, outs
+
+        ps, outs = problems()
+        res.count("schedules")
+        res.count("sync_sequences")
+        res.distinct()
+        res.outcome("sync-seq:" + "+".join("value" if o.kind == "ok" else o.exc_name for o, _ in outs))
+        if ps:
+            confirmed = all(bool(problems()[0]) and problems()[0][0][1][0] == ps[0][1][0] for _ in range(2))
+            if confirmed:
+                i, v = ps[0]
+                res.violation(
+                    "sync-sequence/%s/%s/call-%d/%s" % (cfg.version, op, i + 1, v[0]),
+                    "calls %s on one session (%s): call %d: %s (confirmed on re-runs)" % (calls, op, i + 1, v[1]),
+                    case,
+                )
+            else:
+                res.count("sync_unconfirmed")
+        elif len(res["samples"]) < 1:
+            res.sample({"driver": "sync-sequence", "calls": calls, "outcomes": [(o.brief()[:2], round(el, 3)) for o, el in outs]})
+    return res
+
+
 def replay(case):
     common.prepare_stage()
     cfg = Cfg.from_desc(case["cfg"])
+    if "calls" in case:
+        outs = run_sync_sequence(cfg, [(c[0], c[1]) for c in case["calls"]], case.get("op", "get"))
+        return [{"outcome": o.brief(), "elapsed": el} for o, el in outs]
     if case["driver"] == "async":
         out, t = run_async_schedule(cfg, case["strays"], case["reply_at"], case.get("op", "get"))
         return {"outcome": out.brief(), "virtual_t_end": t, "problem": judge_async(case["strays"], case["reply_at"], out, t)}
@@ -314,7 +411,8 @@ def run(tier):
     rec.rule = (
         "arrival schedules: k in {0,1,2,3} strays at every combination of spacings {0, T/2, 0.8T, 0.999T} (and k=5 uniform) x reply at {never, ~0, T/4, between strays, just after the last "
         "stray, 0.999T, 1.001T, 1.7T} x {v1,v2c,v3} on the async client in virtual time (exact); sync client on the real clock: k<=3 strays at 0.8T spacing and bursts of 5 at 0.02T x reply "
-        "at {0.5T, 0.9T, 1.7T, never}, T=0.2 s, bound 1.5T. Every schedule is distinct."
+        "at {0.5T, 0.9T, 1.7T, never}, T=0.2 s, bound 1.5T; sequences of 2-3 calls on one session (a call that skipped strays and timed out, then a call whose reply arrives at T/2; a successful call "
+        "after a stray, then silence) and v3 session entry against a silent agent (TimeoutError, in time). Every schedule is distinct."
     )
     rec.assume(
         "asyncio reads time only through loop.time() (virtual clock is sound for the async client)",
@@ -336,5 +434,21 @@ def run(tier):
     for strays, r in schedules_sync(False)[::3]:
         scases.append({"driver": "sync", "cfg": Cfg("v2c").describe(), "strays": strays, "reply_at": r, "op": "getnext"})
     common.run_cases(rec, work_sync, scases, chunk=3, nproc=8)
+    # several calls on one session: the time-out of one call must not leak into the next
+    T = T_SYNC
+    seqs = [
+        [([0.8 * T], None), ([], 0.5 * T)],  # call 1 skips a stray and times out; call 2's reply at T/2 must be delivered
+        [([0.3 * T], 0.6 * T), ([], None)],  # call 1 succeeds after a stray; call 2 must take the full time-out
+        [([0.5 * T, 0.9 * T], None), ([0.5 * T], 0.8 * T), ([], 0.9 * T)],
+        [([], None), ([], 0.9 * T)],
+    ]
+    qcases = []
+    for cfg in cfgs[:3] if not thorough else cfgs:
+        for sq in seqs:
+            qcases.append({"driver": "sync-seq", "cfg": cfg.describe(), "calls": [[a, b] for a, b in sq]})
+    # session entry (discovery / time-sync probes) against a silent agent must raise TimeoutError in time
+    for c in (Cfg("v3", auth=1, discover=True), Cfg("v3", auth=2, priv=2, discover=True), Cfg("v3", auth=1)):
+        qcases.append({"driver": "sync-seq", "cfg": c.describe(), "calls": [[[], None], [[], None]], "op": "enter"})
+    common.run_cases(rec, work_sync_seq, qcases, chunk=2, nproc=8)
     n = rec.counters["schedules"]
     return rec.finish(evaluations=n, distinct_nontrivial=rec.distinct_n)
